@@ -155,7 +155,7 @@ impl Gen {
             11 => c + 1,
             12 => 255,
             13 => 256,
-            14 => 65535,
+            14 => *self.rng.pick(&[65535u64, 65535, 65534, 65533, 32768, 32767]),
             15 => 65536,
             16 => self.rng.range(0, 9),
             _ => self.rng.range(0, r.max(c) + 3),
@@ -585,12 +585,28 @@ impl Gen {
             } else {
                 out.push(self.ascii());
             }
+            // … and then a vertical move, which keeps the cursor past the end of the line: now on a line
+            // whose last column may be empty (LF, VT, CUD, CUU, VPA; RI)
+            if self.rng.chance(1, 2) {
+                match self.rng.below(6) {
+                    0 => out.push(10),
+                    1 => out.extend_from_slice(format!("\x1b[{}B", self.rng.range(1, rows)).as_bytes()),
+                    2 => out.extend_from_slice(format!("\x1b[{}A", self.rng.range(1, rows)).as_bytes()),
+                    3 => out.extend_from_slice(format!("\x1b[{}d", self.rng.range(1, rows)).as_bytes()),
+                    4 => out.extend_from_slice(b"\x1bM"),
+                    _ => out.extend_from_slice(b"\n\n"),
+                }
+            }
         }
         if self.rng.chance(1, 6) {
             // origin mode homes the cursor: set it, then move relatively inside
             out.extend_from_slice(b"\x1b[?6h");
             match self.rng.below(6) {
-                0 | 1 => out.extend_from_slice(format!("\x1b[{};{}H", self.rng.range(1, rows), self.rng.range(1, cols)).as_bytes()),
+                0 | 1 => {
+                    // (a row far beyond the region now and then: the offset is added before the clamp)
+                    let r = if self.rng.chance(1, 4) { *self.rng.pick(&[65535u64, 65534, 65533, 65532, 32768, 999]) } else { self.rng.range(1, rows) };
+                    out.extend_from_slice(format!("\x1b[{};{}H", r, self.rng.range(1, cols)).as_bytes());
+                }
                 2 | 3 => {
                     // VPA is absolute even in origin mode: the one movement that leaves the region
                     // with origin mode on
@@ -712,7 +728,15 @@ impl Gen {
             _ => &[0, 1, 2, 3],
         };
         let mut ints = ints;
-        match self.rng.below(9) {
+        match self.rng.below(10) {
+            9 => {
+                // a private marker in front (`CSI > 4 ; 2 m` is not SGR, `CSI ? 2 J` is selective erase …)
+                if !body.first().is_some_and(|b| (0x3c..=0x3f).contains(b)) {
+                    body.insert(0, *self.rng.pick(b"?><="));
+                } else {
+                    body.remove(0);
+                }
+            }
             0 | 1 => {
                 // pad to around the 32-slot limit
                 let have = body.iter().filter(|b| **b == b';' || **b == b':').count() as u64 + 1;
